@@ -40,6 +40,10 @@ def gen_matrix(rng, r, c, family):
     if family == 'ordered_grade':
         m = float(max(r, c)) ** 2
         return [[1 - (i + 1) * (j + 1) / (m + 1) for j in range(c)] for i in range(r)]
+    if family == 'huge':
+        # finite costs beyond the machine integer range
+        unit = rng.choice([1e19, 1e40, 1e300, 10 ** 25])
+        return [[rng.randint(0, 5) * unit for _ in range(c)] for _ in range(r)]
     if family == 'const':
         v = rng.choice([0, 1, 0.3])
         return [[v for _ in range(c)] for _ in range(r)]
@@ -91,7 +95,7 @@ class C06World(object):
             r = rng.randint(1, max_n)
             c = rng.randint(1, max_n) if rng.random() < 0.6 else r
             fam = rng.choice(['int', 'float', 'ties', 'grade', 'rank1', 'const', 'tiny', 'grade', 'ties',
-                              'ordered', 'ordered_grade'])
+                              'ordered', 'ordered_grade', 'huge'])
             m = gen_matrix(rng, r, c, fam)
             ev = {'op': 'solve', 'solver': rng.randrange(n_solvers), 'family': fam, 'matrix': m}
             if rng.random() < 0.3:
